@@ -330,6 +330,9 @@ func (ev *Evaluator) val(env map[ssa.Value]Val, v ssa.Value) (Val, error) {
 			if _, ok := v.Type().Underlying().(*types.Struct); ok {
 				return zeroOf(v.Type()), nil
 			}
+			if at, ok := v.Type().Underlying().(*types.Array); ok {
+				return &ArrayV{Elems: map[int64]*Cell{}, Len: at.Len(), ElemT: at.Elem()}, nil
+			}
 			if b, ok := v.Type().Underlying().(*types.Basic); ok && b.Kind() != types.UntypedNil {
 				return zeroOf(v.Type()), nil
 			}
@@ -413,6 +416,13 @@ func (ev *Evaluator) store(a, v Val, pos token.Pos) error {
 }
 
 func copyVal(v Val) Val {
+	if a, ok := v.(*ArrayV); ok {
+		c := &ArrayV{Elems: map[int64]*Cell{}, Len: a.Len, ElemT: a.ElemT}
+		for i, cell := range a.Elems {
+			c.Elems[i] = &Cell{V: copyVal(cell.V), Name: cell.Name}
+		}
+		return c
+	}
 	if s, ok := v.(*StructV); ok {
 		c := &StructV{T: s.T, Named: s.Named, Fields: make([]Val, len(s.Fields))}
 		for i, f := range s.Fields {
@@ -428,7 +438,7 @@ func (ev *Evaluator) instr(env map[ssa.Value]Val, in ssa.Value) (Val, error) {
 	case *ssa.Alloc:
 		t := in.Type().Underlying().(*types.Pointer).Elem()
 		if at, ok := t.Underlying().(*types.Array); ok {
-			return Ptr{Cell: ev.newCell(in.Comment, &ArrayV{Elems: map[int64]*Cell{}, Len: at.Len()})}, nil
+			return Ptr{Cell: ev.newCell(in.Comment, &ArrayV{Elems: map[int64]*Cell{}, Len: at.Len(), ElemT: at.Elem()})}, nil
 		}
 		return Ptr{Cell: ev.newCell(in.Comment, zeroOf(t))}, nil
 	case *ssa.FieldAddr:
@@ -663,7 +673,11 @@ func (ev *Evaluator) instr(env map[ssa.Value]Val, in ssa.Value) (Val, error) {
 				_ = arr.Len
 				i, _ := constant.Int64Val(c.V)
 				if arr.Elems[i] == nil {
-					arr.Elems[i] = ev.newCell("elem", Const{nil})
+					var zero Val = Const{nil}
+					if arr.ElemT != nil {
+						zero = zeroOf(arr.ElemT)
+					}
+					arr.Elems[i] = ev.newCell("elem", zero)
 				}
 				return Ptr{Cell: arr.Elems[i]}, nil
 			}
@@ -745,6 +759,7 @@ func (ev *Evaluator) instr(env map[ssa.Value]Val, in ssa.Value) (Val, error) {
 type ArrayV struct {
 	Elems map[int64]*Cell
 	Len   int64
+	ElemT types.Type // element type when known: untouched elements read as its zero value
 }
 
 func (a *ArrayV) String() string {
